@@ -33,7 +33,7 @@ def cases(ctx):
         k = ["square", "triangle", "regular", "circle", "polygon"][i % 5]
         c = {"k": k, "size": _size(rng), "center": _center(rng)}
         if k == "regular":
-            c["n"] = rng.choice([3, 4, 4, 5, 6, 7, 12, 30])
+            c["n"] = rng.choice([3, 4, 4, 5, 6, 7, 12, 30]) if i % 10 == 2 else rng.randint(3, 400)
         if k == "circle":
             c["nd"] = rng.choice([4, 5, 8, 16, 16, 24, 40])
         if k == "polygon":
@@ -44,6 +44,8 @@ def cases(ctx):
     for f in ("square", "triangle", "regular", "circle"):
         for b in bads:
             yield {"k": f, "bad": b}
+    for n in range(3, ctx.n(420, 3000), ctx.n(1, 1)):
+        yield {"k": "regular", "size": 1, "center": (0, 0), "n": n, "count_only": True}
     for n in (2, 1, 0, -3, 3.0, "4", None):
         yield {"k": "regular", "badn": n}
     for n in (3, 0, -1, 4.0, "8", None):
@@ -96,6 +98,15 @@ def check(ctx, case):
         r = I.outcome(f)
         if r != ("err", "Value"):
             fails.append(Fail(kind="O", what="invalid parameter does not raise ValueError", case=repr(case), impl=(r[0], str(r[1])[:60])))
+        return fails
+    if case.get("count_only"):
+        # sweep over nsides: exactly nsides vertices, no zero-length side
+        r = I.outcome(lambda: P.regular_polygon(case["n"], 1))
+        if r[0] != "ok":
+            return [Fail(kind="O", what="regular_polygon raised", n=case["n"], impl=r)]
+        vs = r[1].jordans[0].vertices
+        if len(vs) != case["n"]:
+            fails.append(Fail(kind="O", what="regular_polygon(n) does not have n vertices", n=case["n"], impl=len(vs)))
         return fails
     size, center = case["size"], case["center"]
     ctx.count("kind:" + k)
